@@ -16,13 +16,20 @@ import (
 // in cerrors.FatalError. Output: GenLifecycle.v.
 
 type genEngine struct {
-	Arms           []string // GFatal | GShutdown | GIntentional | GRecover | GOther
-	BodiesOK       bool
-	HasStillAlive  bool
-	ForceWraps     bool
-	ForceFound     bool
-	EscalationWrap bool // v2: the partial-stop escalation Kill
-	Problems       []string
+	Arms            []string // GFatal | GShutdown | GIntentional | GRecover | GOther
+	BodiesOK        bool
+	HasStillAlive   bool
+	ForceWraps      bool
+	ForceFound      bool
+	EscalationWrap  bool // v2: the partial-stop escalation Kill
+	SyncKill        bool // a goroutine of runPipeline that defers a WaitGroup.Done() Kills the tomb itself before returning its error
+	ForceIntent     bool // the force-stop branch also stores intentionalStop
+	GuardedDelete   bool // every runningPipelines.Delete of the cleanup is a compare-and-delete
+	DeleteFound     bool
+	Problems        []string
+	helperGuarded   bool
+	helperFound     bool
+	deleteViaHelper bool
 }
 
 func mentions(n ast.Node, name string) bool {
@@ -159,6 +166,41 @@ func analyse(path string) (*genEngine, error) {
 			continue
 		}
 		if fn.Name.Name == "runPipeline" {
+			repairsOfRunPipeline(g, fn)
+		}
+		if fn.Name.Name == "deleteRunningPipelineIfCurrent" {
+			// v1's helper: Delete under an `if current == rp` guard
+			ok := true
+			inspectWithStack(fn.Body, func(n ast.Node, stack []ast.Node) {
+				if isDeleteOfRunning(n) && !guardedByIdentityTest(stack) {
+					ok = false
+				}
+			})
+			g.helperGuarded = ok
+			g.helperFound = true
+		}
+		// the force-stop branch: the clause / block that Kills with ErrForceStop
+		inspectWithStack(fn.Body, func(n ast.Node, stack []ast.Node) {
+			call, ok := n.(*ast.CallExpr)
+			if !ok {
+				return
+			}
+			sel, ok := call.Fun.(*ast.SelectorExpr)
+			if !ok || sel.Sel.Name != "Kill" || len(call.Args) != 1 || !mentions(call.Args[0], "ErrForceStop") {
+				return
+			}
+			for i := len(stack) - 1; i >= 0; i-- {
+				switch b := stack[i].(type) {
+				case *ast.CaseClause:
+					g.ForceIntent = storesIntentional(&ast.BlockStmt{List: b.Body})
+					return
+				case *ast.BlockStmt:
+					g.ForceIntent = storesIntentional(b)
+					return
+				}
+			}
+		})
+		if fn.Name.Name == "runPipeline" {
 			ast.Inspect(fn.Body, func(n ast.Node) bool {
 				sw, ok := n.(*ast.SwitchStmt)
 				if !ok || sw.Tag == nil {
@@ -214,6 +256,13 @@ func analyse(path string) (*genEngine, error) {
 			return true
 		})
 	}
+	if g.deleteViaHelper {
+		g.DeleteFound = g.helperFound
+		g.GuardedDelete = g.GuardedDelete && g.helperFound && g.helperGuarded
+	}
+	if !g.DeleteFound {
+		g.Problems = append(g.Problems, "no runningPipelines.Delete found in the cleanup of runPipeline")
+	}
 	if !g.HasStillAlive {
 		g.Problems = append(g.Problems, "switch err { case tomb.ErrStillAlive ... default ... } not found in runPipeline")
 	}
@@ -221,6 +270,108 @@ func analyse(path string) (*genEngine, error) {
 		g.Problems = append(g.Problems, "no Kill site mentioning ErrForceStop found")
 	}
 	return g, nil
+}
+
+// inspectWithStack calls f for every node with the stack of its ancestors.
+func inspectWithStack(root ast.Node, f func(n ast.Node, stack []ast.Node)) {
+	var stack []ast.Node
+	ast.Inspect(root, func(n ast.Node) bool {
+		if n == nil {
+			stack = stack[:len(stack)-1]
+			return true
+		}
+		f(n, stack)
+		stack = append(stack, n)
+		return true
+	})
+}
+
+func isDeleteOfRunning(n ast.Node) bool {
+	call, ok := n.(*ast.CallExpr)
+	if !ok {
+		return false
+	}
+	sel, ok := call.Fun.(*ast.SelectorExpr)
+	return ok && sel.Sel.Name == "Delete" && mentions(sel.X, "runningPipelines")
+}
+
+// an enclosing `if ... current == rp ...` (an identity test against the run of this cleanup)
+func guardedByIdentityTest(stack []ast.Node) bool {
+	for _, a := range stack {
+		ifs, ok := a.(*ast.IfStmt)
+		if !ok {
+			continue
+		}
+		found := false
+		ast.Inspect(ifs.Cond, func(x ast.Node) bool {
+			if b, ok := x.(*ast.BinaryExpr); ok && b.Op == token.EQL && (mentions(b.X, "rp") || mentions(b.Y, "rp")) {
+				found = true
+			}
+			return !found
+		})
+		if found {
+			return true
+		}
+	}
+	return false
+}
+
+func storesIntentional(b ast.Node) bool {
+	found := false
+	ast.Inspect(b, func(x ast.Node) bool {
+		call, ok := x.(*ast.CallExpr)
+		if !ok {
+			return true
+		}
+		sel, ok := call.Fun.(*ast.SelectorExpr)
+		if ok && sel.Sel.Name == "Store" && mentions(sel.X, "intentionalStop") && len(call.Args) == 1 {
+			if id, ok := call.Args[0].(*ast.Ident); ok && id.Name == "true" {
+				found = true
+			}
+		}
+		return !found
+	})
+	return found
+}
+
+// repairsOfRunPipeline: (a) does a goroutine that defers a WaitGroup.Done() Kill the tomb itself (before the
+// deferred Done fires)? (b) is every runningPipelines.Delete a compare-and-delete?
+func repairsOfRunPipeline(g *genEngine, fn *ast.FuncDecl) {
+	g.GuardedDelete = true
+	inspectWithStack(fn.Body, func(n ast.Node, stack []ast.Node) {
+		if lit, ok := n.(*ast.FuncLit); ok {
+			defersDone, kills := false, false
+			for _, st := range lit.Body.List {
+				if d, ok := st.(*ast.DeferStmt); ok {
+					if sel, ok := d.Call.Fun.(*ast.SelectorExpr); ok && sel.Sel.Name == "Done" {
+						defersDone = true
+					}
+				}
+			}
+			ast.Inspect(lit.Body, func(x ast.Node) bool {
+				if c, ok := x.(*ast.CallExpr); ok {
+					if sel, ok := c.Fun.(*ast.SelectorExpr); ok && sel.Sel.Name == "Kill" && len(c.Args) == 1 {
+						kills = true
+					}
+				}
+				return true
+			})
+			if defersDone && kills {
+				g.SyncKill = true
+			}
+		}
+		if isDeleteOfRunning(n) {
+			g.DeleteFound = true
+			if !guardedByIdentityTest(stack) {
+				g.GuardedDelete = false
+			}
+		}
+		if c, ok := n.(*ast.CallExpr); ok {
+			if sel, ok := c.Fun.(*ast.SelectorExpr); ok && sel.Sel.Name == "deleteRunningPipelineIfCurrent" {
+				g.deleteViaHelper = true
+			}
+		}
+	})
 }
 
 func coqList(xs []string) string { return "[" + strings.Join(xs, "; ") + "]" }
@@ -253,6 +404,11 @@ func GenLifecycle(repo, dir string) ([]string, error) {
 	fmt.Fprintf(&b, "Definition gen_v1_force_wraps : bool := %s.\n", coqBool(v1.ForceWraps))
 	fmt.Fprintf(&b, "Definition gen_v2_force_wraps : bool := %s.\n", coqBool(v2.ForceWraps))
 	fmt.Fprintf(&b, "Definition gen_v2_escalation_wraps : bool := %s.\n", coqBool(v2.EscalationWrap))
+	fmt.Fprintf(&b, "Definition gen_v1_sync_kill : bool := %s.\n", coqBool(v1.SyncKill))
+	fmt.Fprintf(&b, "Definition gen_v2_sync_kill : bool := %s.\n", coqBool(v2.SyncKill))
+	fmt.Fprintf(&b, "Definition gen_v2_force_intent : bool := %s.\n", coqBool(v2.ForceIntent))
+	fmt.Fprintf(&b, "Definition gen_v1_compare_and_delete : bool := %s.\n", coqBool(v1.GuardedDelete))
+	fmt.Fprintf(&b, "Definition gen_v2_compare_and_delete : bool := %s.\n", coqBool(v2.GuardedDelete))
 	if err := os.MkdirAll(dir, 0o755); err != nil {
 		return nil, err
 	}
